@@ -14,4 +14,4 @@ def run(ctx):
     ctx.assumptions.append("c01_end_to_end assumes the network/packet pipeline delivers only frames the peer emitted (C06: "
                            "forged_no_effect / processed_only_authentic; AEAD ideal); sender = QuicModel.Stream.DataSender "
                            "(tie: C12 parts), receiver = QuicModel.Data.RefBuf (tie: C01_reassembly / C16 differential)")
-    step_lean(ctx, PROP_MODULES, [])
+    step_lean(ctx, PROP_MODULES, [], extra_targets=())      # theorems only: no driver needed
